@@ -4,6 +4,7 @@ C14.a one naming expression for sub-blocks: writer (generate_json) and reader (r
       key as <block name> + "_" + str(<index>), both indices count sub-blocks from 0 in steps of 1
 C14.b every splitting / store instruction has a stack arity and a translation (the splitter reads both)
 C14.c the rebuild never fabricates instructions (shared with C09.b)
+C14.d variable numbers are compared as numbers
 """
 import ast
 
